@@ -216,6 +216,7 @@ struct Local
 
 struct SharedPage
 {
+  std::atomic<uint64_t> alt_states, alt_transitions, alt_violations, alt_done;
   char sub[128];
   char label[256];
   std::atomic<uint64_t> cur_idx[64];
@@ -256,7 +257,17 @@ static struct G
   SharedPage * page = nullptr;
   std::mutex mu;
   int nworkers = 16;
+  int pass     = 0;  // 1: alternate-order pass
+  void (*alt_warmup)() = nullptr;
 } g;
+static void (*&alt_warmup_slot())()
+{
+  static void (*f)() = nullptr;
+  return f;
+}
+AltOrderReg::AltOrderReg(void (*w)()) { alt_warmup_slot() = w; }
+bool alt_order_pass() { return g.pass == 1; }
+static std::string passlabel(const std::string & l) { return g.pass == 1 ? l + "@alt-order" : l; }
 
 SubCheck *& registry()
 {
@@ -421,7 +432,7 @@ static std::string write_replay(const std::string & label, const std::string & k
   std::ofstream o(path);
   o << "{\"property\":\"" << g.pid << "\",\"kind\":\"" << kind << "\",\"sub\":\"" << json_escape(g.cursub) << "\",\"label\":\""
     << json_escape(label) << "\",\"what\":\"" << json_escape(v.what) << "\",\"idx\":" << v.idx << ",\"tier\":\"" << g.tier
-    << "\",\"seed\":" << g.seed_ << ",\"err\":" << jnum(v.err) << ",\"tol\":" << jnum(v.tol) << ",\"params\":{";
+    << "\",\"seed\":" << g.seed_ << ",\"pass\":" << g.pass << ",\"err\":" << jnum(v.err) << ",\"tol\":" << jnum(v.tol) << ",\"params\":{";
   for (size_t i = 0; i < v.params.size(); ++i) o << (i ? "," : "") << "\"" << v.params[i].first << "\":" << jnum(v.params[i].second);
   o << "},\"desc\":\"" << json_escape(v.desc) << "\",\"body\":\"" << json_escape(body) << "\",\"replay_cmd\":\"bin/check " << g.pid
     << " --replay " << path << "\"}\n";
@@ -438,8 +449,9 @@ static void emit_violation(const std::string & path, const std::string & label, 
 }
 
 // ------------------------------------------------------------------ explore
-void explore(const std::string & label, uint64_t n, const Body & body)
+void explore(const std::string & label_in, uint64_t n, const Body & body)
 {
+  const std::string label = passlabel(label_in);
   if (g.replay) {
     if (label != g.rlabel) return;
     printf("REPLAY %s idx=%llu\n", label.c_str(), (unsigned long long)g.ridx);
@@ -551,16 +563,38 @@ void explore(const std::string & label, uint64_t n, const Body & body)
   for (auto & v : viols) {
     if (filed >= 20) break;
     if (per_what[v.what]++ >= 4) continue;
-    for (int rep = 0; rep < 2; ++rep) {
+    // replay the case twice, alone on this thread, before reporting it
+    std::vector<double> serial;
+    bool same = true;
+    for (int rep = 0; rep < 3; ++rep) {
       Case c;
       c.idx = v.idx;
       std::vector<Judged> rec;
       c.record = &rec;
       body(c);
-      bool same = false;
+      double e = NAN;
+      bool found = false;
       for (auto & j : rec)
-        if (j.what == v.what && (memcmp(&j.err, &v.err, sizeof(double)) == 0 || (std::isnan(j.err) && std::isnan(v.err)))) same = true;
-      if (!same) harness_error("non-deterministic violation at " + label + " idx " + std::to_string(v.idx) + " judge " + v.what);
+        if (j.what == v.what && !found) {
+          e     = j.err;
+          found = true;
+        }
+      serial.push_back(e);
+      if (!(memcmp(&e, &v.err, sizeof(double)) == 0 || (std::isnan(e) && std::isnan(v.err)))) same = false;
+    }
+    if (!same) {
+      const bool serial_agree = memcmp(&serial[0], &serial[1], 8) == 0 && memcmp(&serial[1], &serial[2], 8) == 0;
+      if (!serial_agree) harness_error("non-deterministic case at " + label + " idx " + std::to_string(v.idx) + " judge " + v.what);
+      // Deterministic when run alone, different when it ran concurrently with the other cases (16 worker threads calling the
+      // library's non-mutating operations on their own objects): the operation is not reentrant. Harness bodies share only
+      // read-only data, so this is a defect of the library (hidden static / scratch state), reported as such.
+      Viol w = v;
+      w.what = v.what + " [result differs when other cases run concurrently: operation not reentrant]";
+      w.desc = v.desc + fmt(" | alone: err=%.6g (3 identical runs), concurrently: err=%.6g", serial[0], v.err);
+      std::string path = write_replay(label, "index", w, "");
+      emit_violation(path, label, w);
+      ++filed;
+      continue;
     }
     std::string path = write_replay(label, "index", v, "");
     emit_violation(path, label, v);
@@ -574,9 +608,10 @@ void explore(const std::string & label, uint64_t n, const Body & body)
   g.spaces.push_back(std::move(sp));
 }
 
-void report_space(const std::string & label, uint64_t states, uint64_t transitions, uint64_t traces,
+void report_space(const std::string & label_in, uint64_t states, uint64_t transitions, uint64_t traces,
   const std::vector<std::string> & samples, bool exhaustive, const std::string & extra)
 {
+  const std::string label = passlabel(label_in);
   if (g.replay) return;
   Space sp;
   sp.label      = label;
@@ -597,9 +632,10 @@ void report_space(const std::string & label, uint64_t states, uint64_t transitio
   g.spaces.push_back(std::move(sp));
 }
 
-void report_violation(const std::string & label, const std::string & what, double err, double tol,
+void report_violation(const std::string & label_in, const std::string & what, double err, double tol,
   const std::map<std::string, double> & params, const std::string & desc, const std::string & body)
 {
+  const std::string label = passlabel(label_in);
   Case c;
   for (auto & kv : params) c.param(kv.first.c_str(), kv.second);
   std::lock_guard<std::mutex> lk(g.mu);
@@ -742,6 +778,7 @@ static int run_child()
   std::vector<SubCheck *> subs;
   for (SubCheck * s = registry(); s; s = s->next) subs.push_back(s);
   std::sort(subs.begin(), subs.end(), [](SubCheck * a, SubCheck * b) { return strcmp(a->name, b->name) < 0; });
+  if (g.pass == 1 && alt_warmup_slot()) alt_warmup_slot()();
   for (SubCheck * s : subs) {
     if (!g.only.empty() && fnmatch(g.only.c_str(), s->name, 0) != 0) continue;
     if (g.replay && !g.rsub.empty() && g.rsub != s->name) continue;
@@ -761,12 +798,22 @@ static int run_child()
       printf("KNOWN-FINDING: property=%s %s (cases=%llu worst=%.3g)\n", g.pid.c_str(), f->text.c_str(),
         (unsigned long long)f->matched.load(), f->worst);
   const double wall = std::chrono::duration<double>(std::chrono::steady_clock::now() - g.t0).count();
-  write_evidence(wall, false, "");
   uint64_t states = 0, trans = 0;
   for (auto & s : g.spaces) {
     states += s.cases;
     trans += s.judged;
   }
+  if (g.pass == 1) {
+    g.page->alt_states      = states;
+    g.page->alt_transitions = trans;
+    g.page->alt_violations  = g.violations;
+    g.page->alt_done        = 1;
+    printf("SUMMARY-ALT-ORDER property=%s states=%llu transitions=%llu violations=%llu\n", g.pid.c_str(), (unsigned long long)states,
+      (unsigned long long)trans, (unsigned long long)g.violations);
+    fflush(stdout);
+    return g.violations ? 1 : 0;
+  }
+  write_evidence(wall, false, "");
   printf("SUMMARY property=%s tier=%s states=%llu transitions=%llu violations=%llu exhaustive=%s wall=%.1fs\n", g.pid.c_str(),
     g.tier.c_str(), (unsigned long long)states, (unsigned long long)trans, (unsigned long long)g.violations,
     g.exhaustive ? "true" : "false", wall);
@@ -826,6 +873,7 @@ int main_impl(int argc, char ** argv, const char * pid)
     g.rbody  = v.str("body");
     g.rwhat  = v.str("what");
     g.ridx   = uint64_t(v.num("idx"));
+    g.pass   = int(v.num("pass", 0));
     g.deadline_s = 1e9;
     return run_child();
   }
@@ -843,7 +891,59 @@ int main_impl(int argc, char ** argv, const char * pid)
   }
   int st = 0;
   waitpid(ch, &st, 0);
-  if (WIFEXITED(st)) return WEXITSTATUS(st);
+  if (WIFEXITED(st)) {
+    int rc = WEXITSTATUS(st);
+    if (rc <= 1 && alt_warmup_slot() && g.only.empty()) {
+      // alternate call order in a fresh process
+      fflush(stdout);
+      pid_t ch2 = fork();
+      if (ch2 == 0) {
+        g.pass = 1;
+        int rc2 = run_child();
+        fflush(stdout);
+        fflush(stderr);
+        _exit(rc2);
+      }
+      int st2 = 0;
+      waitpid(ch2, &st2, 0);
+      int rc2 = WIFEXITED(st2) ? WEXITSTATUS(st2) : 1;
+      if (!WIFEXITED(st2)) {
+        g.pass = 1;
+        Viol v{g.page->cur_idx[0].load(), "crash", INFINITY, 0, {},
+          fmt("alternate-order pass died with signal %d in sub-check %s, space %s", WTERMSIG(st2), g.page->sub, g.page->label)};
+        g.cursub = g.page->sub;
+        std::string path = write_replay(g.page->label, "index", v, "");
+        emit_violation(path, g.page->label, v);
+      }
+      // record the second pass in the evidence file written by the first
+      const std::string ef = g.root + "/evidence/" + g.pid + ".json";
+      std::ifstream in(ef);
+      std::stringstream ss;
+      ss << in.rdbuf();
+      std::string txt = ss.str();
+      const std::string ins = fmt("\"alternate_order_pass\": {\"completed\": %s, \"states\": %llu, \"transitions\": %llu, \"violations\": %llu},\n  ",
+        g.page->alt_done.load() ? "true" : "false", (unsigned long long)g.page->alt_states.load(), (unsigned long long)g.page->alt_transitions.load(),
+        (unsigned long long)(g.page->alt_violations.load() + (WIFEXITED(st2) ? 0 : 1)));
+      const size_t pos = txt.find("\"selfchecks\":");
+      if (pos != std::string::npos) {
+        txt.insert(pos, ins);
+        {
+          // total violations = first pass + second pass
+          const size_t pv = txt.rfind("\"violations\":");
+          if (pv != std::string::npos) {
+            const unsigned long long a = strtoull(txt.c_str() + pv + 13, nullptr, 10);
+            const size_t e = txt.find_first_of("\n}", pv);
+            txt.replace(pv, e - pv, fmt("\"violations\": %llu", a + (unsigned long long)g.page->alt_violations.load() + (WIFEXITED(st2) ? 0ull : 1ull)));
+          }
+        }
+        std::ofstream out(ef);
+        out << txt;
+      }
+      if (rc2 == 2) return 2;
+      rc = std::max(rc, rc2);
+    }
+    return rc;
+  }
   // crashed: the case being executed is the counterexample
   std::string info = fmt("child died with signal %d in sub-check %s, space %s, indices in flight:", WTERMSIG(st), g.page->sub, g.page->label);
   for (int w = 0; w < g.nworkers && w < 64; ++w) info += fmt(" %llu", (unsigned long long)g.page->cur_idx[w].load());
